@@ -417,3 +417,8 @@ def check(case, ctx):
 SUBS = [
     Sub('history', check, strategy=strategy, quick=500, thorough=60000, shards_quick=8, budget_quick=60),
 ]
+
+
+from vlib.reported import reported_sub  # noqa: E402
+
+SUBS.append(reported_sub('C12'))
